@@ -87,6 +87,12 @@ const POOL: &[(&str, &str, Option<&str>, bool, bool)] = &[
     ("two-vars", "X = Y.", None, false, false),
     ("alias", "X = Y, Y = 1.", None, false, false),
     ("string", "X = \"abc\".", Some("X"), false, false),
+    // character lists held in ordinary list cells (not packed strings), with multi-byte characters
+    // in every position: the answer conversion rebuilds a string from them
+    ("chars-reverse-nonascii", "reverse(\"na\u{ef}ve\", X).", Some("X"), false, false),
+    ("chars-append-greek", "append(\"\u{3b1}\u{3b2}\", \"\u{3b3}z\", X).", Some("X"), false, false),
+    ("chars-cons-euro", "T = \"z\u{20ac}\", X = ['\u{e9}', '\u{20ac}'|T].", Some("X"), false, false),
+    ("chars-findall-cjk", "findall(C, member(C, \"\u{65e5}\u{672c}a\u{8a9e}\"), X).", Some("X"), false, false),
     ("partial-var", "X = [a|T].", None, false, false),
     ("atom-tail", "Y = [b|a].", Some("Y"), true, false),
     ("dot", "X = '.'(a,c).", Some("X"), true, false),
